@@ -1175,6 +1175,93 @@ def repeat_take_collect(fn):
     return n
 
 
+_SS = [0]
+
+
+def split_local_structs(fn, adts):
+    """D49  `let mut s = S { f: e, .. }` (optionally `..Default::default()` for a struct whose other fields are vectors / options) where every use
+            of `s` is a field access `s.f`  ->  one local per field (scalar replacement of the aggregate: a private bundle of records used
+            field by field is its fields)."""
+    n = 0
+    tys = _TYPES[0] or []
+    for b in list(_walk(fn.get("body"))):
+        if b.get("k") != "block":
+            continue
+        for st in list(b["stmts"]):
+            if not (st.get("k") == "let" and not st.get("els") and st["pat"].get("k") == "bind" and not st["pat"].get("sub") and st.get("init") is not None):
+                continue
+            init = _unblk(st["init"])
+            if init is None or init.get("k") != "struct":
+                continue
+            path = str(init.get("path", ""))
+            path = path[5:] if path.startswith("Self:") else path
+            adt = (adts or {}).get(path)
+            if adt is None or adt.get("kind") != "struct" or not adt.get("variants"):
+                continue
+            fields = [(f_["name"], f_.get("ty", "")) for f_ in adt["variants"][0]["fields"]]
+            given = dict((a_, e_) for a_, e_ in init["fs"])
+            base = _unblk(init.get("base")) if init.get("base") is not None else None
+            if base is not None and not (base.get("k") == "call" and str(base.get("callee", "")) == "std::default::Default::default" and not base.get("args")):
+                continue
+            line = st.get("line")
+
+            def default_of(ty):
+                if ty.startswith("std::vec::Vec<"):
+                    return {"k": "call", "callee": "std::vec::Vec::<T>::new", "f": {"k": "path", "def": "std::vec::Vec::<T>::new", "line": line}, "args": [], "line": line}
+                if ty.startswith("std::option::Option<"):
+                    return {"k": "path", "def": "std::prelude::v1::None", "line": line}
+                return None
+            vals = {}
+            okf = True
+            for nm, ty in fields:
+                if nm in given:
+                    vals[nm] = given[nm]
+                elif base is not None and default_of(ty) is not None:
+                    vals[nm] = default_of(ty)
+                else:
+                    okf = False
+            if not okf:
+                continue
+            sh = st["pat"]["hid"]
+
+            def base_is_s(x):
+                b0 = x.get("b") if isinstance(x, dict) else None
+                while isinstance(b0, dict) and (b0.get("k") == "ref" or (b0.get("k") == "un" and b0.get("op") == "Deref") or (b0.get("k") == "blk" and not b0["b"]["stmts"] and b0["b"].get("tail") is not None)):
+                    b0 = b0["x"] if b0["k"] != "blk" else b0["b"]["tail"]
+                return isinstance(b0, dict) and b0.get("k") == "local" and b0.get("hid") == sh
+            uses = [x for x in _walk(fn["body"]) if x.get("k") == "local" and x.get("hid") == sh]
+            faccs = [x for x in _walk(fn["body"]) if x.get("k") == "field" and base_is_s(x) and x.get("f") in vals]
+            if not uses or len(uses) != len(faccs):
+                continue
+            hids = {}
+            for nm, ty in fields:
+                _SS[0] += 1
+                hids[nm] = 9960000 + _SS[0]
+            tindex = {nm: (tys.index(ty) if ty in tys else None) for nm, ty in fields}
+
+            def subst(x):
+                if isinstance(x, list):
+                    return [subst(v) for v in x]
+                if not isinstance(x, dict):
+                    return x
+                if x.get("k") == "field" and base_is_s(x) and x.get("f") in vals:
+                    r = {"k": "local", "name": x["f"], "hid": hids[x["f"]], "t": tindex.get(x["f"]), "line": x.get("line")}
+                    if "ta" in x:
+                        r["ta"] = x["ta"]
+                    return r
+                for k_, v in list(x.items()):
+                    if isinstance(v, (dict, list)):
+                        x[k_] = subst(v)
+                return x
+            order = [a_ for a_, _ in init["fs"]] + [nm for nm, _ in fields if nm not in given]
+            lets = [{"k": "let", "pat": {"k": "bind", "name": nm, "hid": hids[nm], "mode": "BindingMode(No, Mut)", "t": tindex.get(nm)}, "init": vals[nm], "els": None, "line": line} for nm in order]
+            idx = [i_ for i_, t_ in enumerate(b["stmts"]) if t_ is st][0]
+            b["stmts"][idx:idx + 1] = lets
+            fn["body"] = subst(fn["body"])
+            n += 1
+    return n
+
+
 def deref_of_ref(fn):
     """D43  `*&X` / `*&mut X`  ->  `X`   (what a by-reference parameter substituted by its argument leaves behind)"""
     n = 0
@@ -2797,12 +2884,23 @@ def _never_written(fn, roots):
     for h in bare:
         if not modes.get(h, "").endswith("Not)"):
             return False
+    tys_ = _TYPES[0] or []
+    owners = {h for (h, f) in fields}
     for x in _walk(fn.get("body")):
         tgt = None
         if x.get("k") in ("assign", "assignop"):
             tgt = x["l"]
         elif x.get("k") == "ref" and x.get("mut"):
             tgt = x["x"]
+        elif x.get("k") == "mcall":
+            # a `&mut self` method called on the whole object (auto-borrowed: no `&mut` node) may write any of its fields
+            r_ = _unblk(x.get("recv"))
+            while r_ is not None and (r_.get("k") == "ref" or (r_.get("k") == "un" and r_.get("op") == "Deref")):
+                r_ = _unblk(r_["x"])
+            if r_ is not None and r_.get("k") == "local" and r_.get("hid") in owners:
+                ta_ = _unblk(x["recv"]).get("ta")
+                if (ta_ is not None and ta_ < len(tys_) and tys_[ta_].startswith("&mut")) and x.get("name") not in ("iter_mut",):
+                    return False
         if tgt is None:
             continue
         chain = []
@@ -4230,6 +4328,9 @@ def run(facts):
             counts["move_aliases"] = counts.get("move_aliases", 0) + move_aliases(fn)
         tv_ = split_tuple_values(fn)
         counts["tuple_values"] = counts.get("tuple_values", 0) + tv_
+        ss_ = split_local_structs(fn, facts.get("adts"))
+        counts["local_structs"] = counts.get("local_structs", 0) + ss_
+        tv_ += ss_
         rounds_ = 0
         while tv_ and rounds_ < 3:
             # projections were replaced by their components: aliases of the places they name may be recognisable only now
